@@ -61,6 +61,17 @@ def opOfJson (j : Json) : Except String Op := do
   | "closed" => pure .closed
   | _ => throw s!"h2send op {k}"
 
+/-- ops of the extended machine: `rebuild` = `next(priority)` handed out a stream the tree does not know -/
+def xopOfJson (j : Json) : Except String XOp := do
+  let k ← getStr j "op"
+  match k with
+  | "rebuild" => pure (.rebuild (← getNat j "i"))
+  | _ => pure (.op (← opOfJson j))
+
+def xopOkB (ids : List Nat) (s : St) : XOp → Bool
+  | .op o => opOkB ids s o
+  | .rebuild _ => true
+
 def run : Handler := fun j => do
   let cw ← getInt j "connWin"
   let mf ← getNat j "maxFrame"
@@ -73,9 +84,9 @@ def run : Handler := fun j => do
     if dead then
       outs := outs.push (Json.mkObj [("skipped", true)])
     else
-      let op ← opOfJson opj
-      let ok := opOkB ids s op
-      match step s op with
+      let op ← xopOfJson opj
+      let ok := xopOkB ids s op
+      match xstep s op with
       | none =>
         dead := true
         outs := outs.push (Json.mkObj [("en", false), ("ok", ok), ("st", stJson ids s)])
